@@ -444,10 +444,61 @@ def pc_term(pc):
     return "true" if not pc else "(and " + " ".join(pc) + ")"
 
 
+def solve_batches(decls, assumptions, chunks, tlimit=240):
+    """one solver process per solver, one (push)(assert chunk)(check-sat)(pop) per chunk.
+    -> {solver: ([verdict per chunk], raw output)}"""
+    hdr = "(set-logic ALL)\n" + "\n".join(decls) + "\n" + "\n".join(f"(assert {a})" for a in assumptions) + "\n"
+    body = "".join(f"(push 1)\n(assert {c})\n(check-sat)\n(pop 1)\n" for c in chunks)
+    res = {}
+    for name, cmd in (("z3", ["/usr/bin/z3", "-in", f"-T:{tlimit}"]),
+                      ("cvc5", ["cvc5", "--lang", "smt2", "--incremental", f"--tlimit={tlimit * 1000}"])):
+        try:
+            p = subprocess.run(cmd, input=hdr + body, stdout=subprocess.PIPE, stderr=subprocess.STDOUT, text=True,
+                               timeout=tlimit + 60)
+            o = p.stdout
+        except Exception as e:  # noqa
+            res[name] = (["error"] * len(chunks), repr(e))
+            continue
+        if "(error" in o:
+            res[name] = (["error"] * len(chunks), o[:300])
+            continue
+        vs = [l.strip() for l in o.splitlines() if l.strip() in ("sat", "unsat", "unknown")]
+        if len(vs) != len(chunks):
+            vs = vs + ["error"] * (len(chunks) - len(vs))
+        res[name] = (vs, o[:300])
+    return res
+
+
 class Obligations:
     def __init__(self):
         self.items = []   # dicts
         self.time = 0.0
+
+    def check_many(self, name, decls, assumptions, bad_terms, describe, chunk=120):
+        """the obligation holds iff every bad term is unsatisfiable; discharged chunk-wise in one incremental
+        session per solver (a single disjunction of thousands of path terms stalls cvc5)"""
+        chunks = ["(or false " + " ".join(bad_terms[i:i + chunk]) + ")" for i in range(0, max(1, len(bad_terms)), chunk)]
+        t = time.time()
+        r = solve_batches(decls, assumptions, chunks)
+        verdicts = {}
+        for k, (vs, raw) in r.items():
+            verdicts[k] = ("sat" if "sat" in vs else "error" if "error" in vs else "unknown" if "unknown" in vs else "unsat")
+        model, st = None, "inconclusive"
+        if all(v == "unsat" for v in verdicts.values()):
+            st = "proved"
+        elif all(v == "sat" for v in verdicts.values()):
+            # both solvers must agree on at least one satisfiable chunk
+            common = [i for i in range(len(chunks)) if all(r[k][0][i] == "sat" for k in r)]
+            if common:
+                st = "refuted"
+                script = "(set-logic ALL)\n(set-option :produce-models true)\n" + "\n".join(decls) + "\n" + \
+                         "\n".join(f"(assert {a})" for a in assumptions) + f"\n(assert {chunks[common[0]]})\n(check-sat)\n(get-model)\n"
+                model = solve(script)["z3"][1][:1500]
+        self.time += time.time() - t
+        self.items.append({"obligation": name, "describe": describe, "verdicts": verdicts, "status": st, "model": model,
+                           "chunks": len(chunks), "path_terms": len(bad_terms),
+                           "solver_output": {k: v[1][:300] for k, v in r.items()} if st == "inconclusive" else None})
+        return st
 
     def check(self, name, decls, assumptions, negated_goal, describe, expect="proved"):
         script = "(set-logic ALL)\n(set-option :produce-models true)\n" + "\n".join(decls) + "\n" + \
@@ -469,7 +520,8 @@ class Obligations:
             # vacuity witness: a deliberately false goal must come back refuted (sat), else the encoding is vacuous
             st = "witness-ok" if st == "refuted" else "inconclusive"
         self.items.append({"obligation": name, "describe": describe, "verdicts": verdicts, "status": st,
-                           "model": r["z3"][1][:1500] if st == "refuted" else None})
+                           "model": r["z3"][1][:1500] if st == "refuted" else None,
+                           "solver_output": {k: v[1][:300] for k, v in r.items()} if st == "inconclusive" else None})
         return st
 
 
@@ -820,7 +872,7 @@ PROP_KERNELS = {
 def run_for_property(prop, src, tier):
     import miragg
     kernels = PROP_KERNELS.get(prop, [])
-    if not kernels and prop not in miragg.SITES:
+    if not kernels and not miragg.has_sites(prop):
         return None
     t0 = time.time()
     ob = Obligations()
@@ -839,7 +891,7 @@ def run_for_property(prop, src, tier):
             elif k == "emit_code":
                 f, _n = check_emit_code(mir, src, ob)
                 fns += f
-        if prop in miragg.SITES:
+        if miragg.has_sites(prop):
             agg = miragg.run(prop, mir, src, ob)
             fns += agg.fns
     except Untranslatable as e:
@@ -853,6 +905,8 @@ def run_for_property(prop, src, tier):
             "obligations_discharged": sum(1 for o in ob.items if o["status"] in ("proved", "proved-no-site")),
             "vacuity_witnesses_ok": sum(1 for o in ob.items if o["status"] == "witness-ok"),
             "obligations": ob.items, "failures": refuted, "solver_seconds": round(ob.time, 2),
+            "bounds": "per obligation: `paths` enumerated, `unroll` = loop iterations kept (each basic block entered at most unroll+1 "
+                      "times per path), `cut_by_unroll_bound` = paths abandoned at the bound (longer collections: outside the claim)",
             "solvers": ["z3 4.8.12 (/usr/bin/z3)", "cvc5 1.0"], "encoding": "Int/Bool terms, one term per CFG path (no arithmetic in these bodies => no wrap-around to model)",
             "reason": "; ".join(o["obligation"] for o in inconc) if inconc else None,
             "wall_s": round(time.time() - t0, 1)}
